@@ -199,6 +199,16 @@ def _seq_repeat(I, s, n):
         for _ in range(max(n, 0)):
             chunks.extend(s.chunks)
         return seq_lower(SSeq(s.kind, chunks, s.taint))
+    vals = I.path.enumerate_small(int_term(n))
+    if vals is not None:
+        k = None
+        for cand in vals:
+            if I.path.branch(int_term(n) == cand):
+                k = cand
+                break
+        if k is None:
+            raise _pyvc().Infeasible()
+        return _seq_repeat(I, s, k)
     # symbolic repeat of a single concrete element: a fresh sequence of that length
     if s.concrete() and isinstance(s.length(), int) and s.length() == 1:
         e = s.chunks[0][1][0]
@@ -405,12 +415,10 @@ def equals(I, a, b):
 def seq_equal(I, a, b):
     if a.kind != b.kind:
         return False
-    ca = [list(c) if c[0] == 's' else ('u', list(c[1])) for c in a.chunks]
-    cb = [list(c) if c[0] == 's' else ('u', list(c[1])) for c in b.chunks]
     conj = []
     i = j = 0
-    ca = [('u', list(c[1])) if c[0] == 'u' else ('s', c[1]) for c in a.chunks]
-    cb = [('u', list(c[1])) if c[0] == 'u' else ('s', c[1]) for c in b.chunks]
+    ca = [('u', list(c[1])) if c[0] == 'u' else c for c in a.chunks]
+    cb = [('u', list(c[1])) if c[0] == 'u' else c for c in b.chunks]
     ok = True
     while i < len(ca) and j < len(cb):
         x, y = ca[i], cb[j]
@@ -519,16 +527,18 @@ def _seq_take(I, s, n):
                 need = 0
         else:
             t = c[1]
+            mx = c[2][1]
+            bd = c[2]
             ln = z3.Length(t)
             if I.path.is_valid(ln >= need):
-                els, rest = I.path.split_fixed(t, need)
+                els, rest = I.path.split_fixed(t, need, mx)
                 pre.append(('u', els))
-                chunks[i] = ('s', rest)
+                chunks[i] = ('s', rest, bd)
                 need = 0
             elif I.path.branch(ln >= need):
-                els, rest = I.path.split_fixed(t, need)
+                els, rest = I.path.split_fixed(t, need, mx)
                 pre.append(('u', els))
-                chunks[i] = ('s', rest)
+                chunks[i] = ('s', rest, bd)
                 need = 0
             else:
                 # the symbolic chunk is shorter than needed: learn its exact length by cases
@@ -539,7 +549,7 @@ def _seq_take(I, s, n):
                         break
                 if k is None:
                     raise _pyvc().Infeasible()
-                els, rest = I.path.split_fixed(t, k)
+                els, rest = I.path.split_fixed(t, k, mx)
                 I.path.assume(z3.Length(rest) == 0)
                 pre.append(('u', els))
                 need -= k
@@ -585,13 +595,13 @@ def slice_(I, v, lo, hi, step):
             raise OutOfFragment("negative slice bound on symbolic-length sequence")
         if hi is None:
             _, suf = _seq_take(I, s, lo)
-            return seq_lower(SSeq(s.kind, suf, s.taint))
+            return seq_lower(SSeq(s.kind, suf, s.taint, s.bound))
         if hi <= lo:
             return b'' if s.kind == 'bytes' else ''
         pre, _ = _seq_take(I, s, hi)
-        p2 = SSeq(s.kind, pre, s.taint)
+        p2 = SSeq(s.kind, pre, s.taint, s.bound)
         _, suf = _seq_take(I, p2, lo)
-        return seq_lower(SSeq(s.kind, suf, s.taint))
+        return seq_lower(SSeq(s.kind, suf, s.taint, s.bound))
     # --- symbolic bounds: ghost prefix/suffix split
     lo_t = int_term(lo)
     tot_t = total if not isinstance(total, int) else z3.IntVal(total)
@@ -625,7 +635,7 @@ def slice_(I, v, lo, hi, step):
         res = pre
     else:
         _, res = I.path.split_sym(pre, lo_t)
-    return SSeq(s.kind, [('s', res)], s.taint)
+    return SSeq(s.kind, [('s', res)], s.taint, s.bound)
 
 
 def _slice_conc(s, lo, hi):
